@@ -24,6 +24,10 @@ func main() {
 		os.Exit(checkMain(os.Args[2:]))
 	case "list":
 		listMain()
+	case "manifest":
+		manifestMain()
+	case "selftest":
+		os.Exit(selftestMain())
 	default:
 		fmt.Fprintln(os.Stderr, "unknown subcommand")
 		os.Exit(2)
@@ -146,4 +150,13 @@ func explore(args []string) {
 	}
 }
 
-func checkMain(args []string) int { return 2 }
+
+func selftestMain() int {
+	p, err := loadProgram()
+	if err != nil {
+		fmt.Fprintln(os.Stderr, "selftest: load:", err)
+		return 2
+	}
+	fmt.Printf("selftest: loaded %d harnesses in %.1fs\n", len(p.Harness), p.LoadTime)
+	return 0
+}
